@@ -1,9 +1,11 @@
 """C20 — source includes: cycle detection, pairing, fence immunity, relative resolution."""
 import re
 from lib.facts import CallGraph
-from lib.mirq import Slice, calls_matching, edge_dominates, result_exits, switch_on_call_result
+from lib.mirq import Slice, calls_matching, edge_dominates, result_exits
+from lib.mirfwd import (bool_switches, callee_of, cycle_members, derives_from_call, forwarded_sites, helper_frames, ip_roots, result_checked, result_edges)
 
-TECHNIQUE = "MIR CFG path rules (dominance, must-pass-through pairing, edge dominance) + operand provenance + who-may-call on the include expander"
+TECHNIQUE = ("MIR CFG path rules (dominance, must-pass-through pairing, edge dominance) + operand provenance + who-may-call on the include expander; "
+             "roles by type / callee / recursion cycle, calls followed through private helpers and closures with parameters bound to arguments (lib/mirfwd.py)")
 EXPLANATION = (
     "Decides the structural clauses of C20 on the MIR of the include expander in crate `mech`: the cycle test "
     "dominates the active-set insertion and every recursive call and its true-branch returns Err; every path from the "
@@ -15,6 +17,10 @@ EXPLANATION = (
     ' (R4, tightened) the active-set key derives from canonicalize(path) (two spellings of one file must be one key).'
     ' (R8) the token expander examines every line of its chunk: no Ok exit before or inside the line loop, the result is the accumulator the loop fills, and the per-line test is standalone_braced_content.'
     ' (R9) fence typestate: a line that opens a fence sets the fence state unconditionally, the state is cleared only under is_code_fence_close, both fence branches end in `continue`, and nothing else writes the state.'
+    ' Shape independence: the guarded function is the function on a recursion cycle that inserts into its HashSet<PathBuf> parameter (itself or through a helper); the token expander is the function on '
+    'that cycle that calls it back; the membership test is `contains` or an `insert` whose bool result is branched on (either polarity spelling) or a gate helper whose Err edge is the present edge; '
+    'helpers between the two (flush helpers, closures) are looked through with parameters bound to arguments; R8 and R9 are decided on the CFG (cfg:* obligations), their syntactic forms are kept '
+    'for the spelling they recognise and recorded as undecided otherwise.'
 )
 
 HS = r"std::collections::hash::set::HashSet::<T, S, A>::"
@@ -29,7 +35,7 @@ def run(F, rep, tier):
     bodies = F.bodies(crate)
     rep.analysed = {"crate": crate, "bodies": len(bodies)}
     cg = CallGraph(F, [crate])
-    rep.rule("C20-R1", "cycle test (contains on the active set) dominates insert and every recursive call; its true branch returns Err without inserting")
+    rep.rule("C20-R1", "cycle test (contains on the active set, or an insert whose bool result is branched on, or a gate helper doing either) dominates insert and every recursive call; its key-present branch returns Err without inserting")
     rep.rule("C20-R2", "every path from the active-set insertion to an Ok return passes a removal of the same key")
     rep.rule("C20-R3", "token expander is only fed the outside-fence buffer; that buffer is appended to only when no fence is active and the line opens no fence; fenced lines are copied verbatim")
     rep.rule("C20-R4", "include path = parent(canonical path of the including file).join(include text); never the process cwd")
@@ -39,21 +45,132 @@ def run(F, rep, tier):
     # ---- anchors by role: the guarded function = inserts into a HashSet<PathBuf> parameter
     guarded = []
     for b in bodies:
-        ins = calls_matching(b, HS + "insert$")
-        if not ins:
+        if not set_ops(b, "insert"):
             continue
-        sl = Slice(b)
-        for blk, t in ins:
-            roots = sl.roots(t["args"][0])
-            args = [r[1] for r in roots if r[0] == "arg"]
-            if any(is_set_param(b, a) for a in args):
+        if len(cycle_members(cg, b.fn)) > 1 or any(callee_of(t) == b.fn for _, t in b.calls()):
+            if b not in guarded:
                 guarded.append(b)
-                break
+            continue
+        # the insertion was extracted into a helper (`enter(active_set, &path)?`): the guarded function is the caller on the
+        # recursion cycle that hands its own set parameter to the helper
+        for c in bodies:
+            if c is not b and c not in guarded and any(callee_of(t) == b.fn for _, t in c.calls()) and helper_set_sites(cg, c, "insert") \
+                    and (len(cycle_members(cg, c.fn)) > 1 or any(callee_of(t) == c.fn for _, t in c.calls())):
+                guarded.append(c)
     rep.floor("C20-R1", "guarded include expander (inserts into a HashSet<PathBuf> parameter)", len(guarded), 1)
     if not guarded:
         return
     for R in guarded:
         check_guarded(F, rep, R, cg, bodies)
+
+
+PUSH_RX = re.compile(r"alloc::string::String::(push_str|push|insert_str|extend)$|<alloc::string::String as core::ops::arith::AddAssign")
+TEXT_TYPES = ("&str", "&alloc::string::String", "&mut alloc::string::String", "alloc::string::String")
+FRESH_SET = re.compile(r"::(new|default|with_capacity|with_hasher|with_capacity_and_hasher)$")
+CWD = re.compile(r"current_dir|env::|home_dir|temp_dir")
+
+
+def last(fn):
+    return fn.split("::")[-1]
+
+
+def appends_to_param(cg, fn, p, depth=2):
+    """does local function `fn` append to the String it receives as parameter p (directly or by handing it on)?"""
+    b = cg.bodies.get(fn)
+    if b is None:
+        return False
+    s = Slice(b)
+    for _, t in calls_matching(b, PUSH_RX):
+        if ("arg", p) in s.roots(t["args"][0]):
+            return True
+    if depth > 0:
+        for _, t in b.calls():
+            cal = callee_of(t)
+            if cal in cg.bodies and cal != fn:
+                cb = cg.bodies[cal]
+                for k, a in enumerate(t["args"]):
+                    if k + 1 <= cb.nargs and cb.locals[k + 1] == "&mut alloc::string::String" and ("arg", p) in s.roots(a) \
+                            and appends_to_param(cg, cal, k + 1, depth - 1):
+                        return True
+    return False
+
+
+def string_appends(cg, R, sl, buf):
+    """(block, terminator) in R of every append to String local `buf`: push_str/push/.. on it, or a call that hands `&mut buf`
+    to a local function which appends to that parameter"""
+    out = []
+    for b, t in calls_matching(R, PUSH_RX):
+        if buf in sl.locals_feeding(t["args"][0]):
+            out.append((b, t))
+    for b, t in R.calls():
+        cal = callee_of(t)
+        if cal in cg.bodies:
+            cb = cg.bodies[cal]
+            for k, a in enumerate(t["args"]):
+                if k + 1 <= cb.nargs and cb.locals[k + 1] == "&mut alloc::string::String" and isinstance(a, list) \
+                        and buf in sl.locals_feeding(a) and appends_to_param(cg, cal, k + 1):
+                    out.append((b, t))
+    return out
+
+
+def set_ops(body, op):
+    """(block, call) of HashSet::<op> applied to a HashSet<PathBuf> PARAMETER of `body`"""
+    sl = Slice(body)
+    out = []
+    for blk, t in calls_matching(body, HS + op + "$"):
+        if any(r[0] == "arg" and is_set_param(body, r[1]) for r in sl.roots(t["args"][0])):
+            out.append((blk, t))
+    return out
+
+
+def helper_set_sites(cg, R, op):
+    """calls in R of a local helper that applies HashSet::<op> to the set R hands it (R's own set parameter), as pseudo call
+    terminators {"args": [set operand, key operand], "d", "t", "l", "_helper", "_kind"} so that they can stand where a direct
+    `set.<op>(key)` stands.  _kind (insert): 'gate' = the helper itself tests membership and returns Err when the key is present,
+    'bool' = it returns the bool of HashSet::insert unchanged, 'plain' otherwise.  A helper that removes only on some paths is no remove."""
+    sl = Slice(R)
+    out = []
+    for blk, t in R.calls():
+        cal = callee_of(t)
+        G = cg.bodies.get(cal)
+        if G is None or cal == R.fn:
+            continue
+        ops = set_ops(G, op)
+        if not ops:
+            continue
+        gs = Slice(G)
+        for gb, gt in ops:
+            sp = [r[1] for r in gs.roots(gt["args"][0]) if r[0] == "arg" and is_set_param(G, r[1])]
+            kp = [r[1] for r in gs.roots(gt["args"][1]) if r[0] == "arg"]
+            if not sp or sp[0] - 1 >= len(t["args"]):
+                continue
+            set_op = t["args"][sp[0] - 1]
+            if not any(r[0] == "arg" and is_set_param(R, r[1]) for r in sl.roots(set_op)):
+                continue
+            key_op = t["args"][kp[0] - 1] if kp and kp[0] - 1 < len(t["args"]) else {"c": "?"}
+            kind = "plain"
+            if op == "insert":
+                ok_exits, err_exits = result_exits(G)
+                rr = gs.roots([0, ""])
+                if G.locals[0] == "bool" and rr and all(r[0] == "call" and r[1].endswith("::insert") for r in rr):
+                    kind = "bool"
+                elif ok_exits and err_exits:
+                    # gate: a membership test whose present branch only errs, and every Ok exit lies behind the insertion
+                    tests = [(tt, ft) for cb, ct in set_ops(G, "contains") for _, tt, ft in bool_switches(G, ct)]
+                    tests += [(ft, tt) for _, tt, ft in bool_switches(G, gt)]
+                    gated = any(not (G.reachable_from([pres], avoid={absent}) & ok_exits) and (G.reachable_from([pres], avoid={absent}) & err_exits)
+                                for pres, absent in tests)
+                    if gated and all(any(G.dominates(ib, e) for ib, _ in ops) for e in ok_exits):
+                        kind = "gate"
+            elif op == "remove":
+                if not all(G.dominates(gb, r) for r in G.ret_blocks()):
+                    continue
+            pseudo = {"k": "call", "args": [set_op, key_op], "d": t["d"], "l": t["l"], "_helper": cal, "_kind": kind, "_term": t}
+            if "t" in t:
+                pseudo["t"] = t["t"]
+            out.append((blk, pseudo))
+            break
+    return out
 
 
 def check_guarded(F, rep, R, cg, bodies):
@@ -66,48 +183,64 @@ def check_guarded(F, rep, R, cg, bodies):
         return any(("arg", a) in sl.roots(t["args"][0]) for a in set_args)
 
     contains = [(b, t) for b, t in calls_matching(R, HS + "contains$") if on_set(t)]
-    inserts = [(b, t) for b, t in calls_matching(R, HS + "insert$") if on_set(t)]
-    removes = [(b, t) for b, t in calls_matching(R, HS + "remove$") if on_set(t)]
+    inserts = [(b, t) for b, t in calls_matching(R, HS + "insert$") if on_set(t)] + helper_set_sites(cg, R, "insert")
+    removes = [(b, t) for b, t in calls_matching(R, HS + "remove$") if on_set(t)] + helper_set_sites(cg, R, "remove")
     ok_exits, err_exits = result_exits(R)
 
-    # who is on the recursion cycle: callees of R (local) from which R is reachable
-    local = set(cg.bodies)
-    cyc_calls = []
-    for b, t in R.calls():
-        cal = t.get("f") or t["tf"]
-        if cal in local and (cal == name or name in cg.reach([cal])):
-            cyc_calls.append((b, t, cal))
+    # who is on the recursion cycle: the strongly connected component of R in the call graph.  `reentry` = the members that call
+    # R back (the token expander), `via` = members that only hand the work on (helpers a refactoring put between R and the expander)
+    cycle_fns = cycle_members(cg, name)
+    reentry = {f for f in cycle_fns if f != name and any(callee_of(t) == name for _, t in cg.bodies[f].calls())}
+    via = cycle_fns - {name} - reentry
+    cyc_calls = [(b, t, callee_of(t)) for b, t in R.calls() if callee_of(t) in cycle_fns]
     rep.floor("C20-R1", "recursive call sites in %s" % name, len(cyc_calls), 1)
+    rec_sites = forwarded_sites(cg, R, reentry | {name}, via)
+    T_sites = [s for s in rec_sites if s.callee != name]
 
-    # R1
-    if not rep.check(len(contains) >= 1, "C20-R1", "%s:cycle-test-present" % name,
-                     "no membership test on the active set before recursing", where):
-        pass
+    def label(b, cal):
+        """name a recursion site by the function that re-enters R (stable when a helper is put in between)"""
+        if cal == name or cal in reentry:
+            return last(cal)
+        return "+".join(sorted({last(s.callee) for s in rec_sites if s.blk == b})) or "indirect"
+
+    # R1.  The membership test is `contains` on the active set, or an `insert` whose bool result is branched on
+    # (`if !set.insert(k) { return Err }`: insert returning false IS the membership test and leaves the set unchanged).
+    tests = []      # (block, term, switch_block, target when the key IS present, target when it is absent)
     for cb, ct in contains:
-        sw = switch_on_call_result(R, cb, ct)
-        if not rep.check(sw is not None, "C20-R1", "%s:cycle-test-branches" % name, "result of the membership test is not branched on", where):
+        sws = bool_switches(R, ct)
+        if not rep.check(bool(sws), "C20-R1", "%s:cycle-test-branches" % name, "result of the membership test is not branched on", where):
             continue
-        swb, t_true, t_false = sw
-        # true branch: must reach only Err exits, never the insert or a recursive call
-        reach_true = R.reachable_from([t_true])
-        hit_ins = [b for b, _ in inserts if b in reach_true and not R.dominates(t_false, b)] if t_false is not None else []
-        # (blocks dominated by the false target are not on the true path)
-        reach_true_only = R.reachable_from([t_true], avoid={t_false} if t_false is not None else ())
-        rep.check(not (reach_true_only & ok_exits) and bool(reach_true_only & err_exits), "C20-R1", "%s:cycle-test-true-branch-errs" % name,
+        tests += [(cb, ct, swb, tt, ft) for swb, tt, ft in sws]
+    for ib, it in inserts:
+        if it.get("_kind") == "gate":
+            # `enter(set, &key)?`: the helper errs when the key is present, so the Err edge of its result is the "present" edge
+            sws = [(swb, okt, errt) for swb, okt, errt in result_edges(R, it["_term"])]      # (switch, "true" = absent, "false" = present)
+        elif it.get("_kind") == "plain":
+            sws = []
+        else:
+            sws = bool_switches(R, it)
+        if sws:
+            rep.check(True, "C20-R1", "%s:cycle-test-branches" % name, "", where)
+            tests += [(ib, it, swb, ft, tt) for swb, tt, ft in sws]
+    rep.check(len(tests) >= 1, "C20-R1", "%s:cycle-test-present" % name, "no membership test on the active set before recursing", where)
+    for cb, ct, swb, present, absent in tests:
+        # present branch: must reach only Err exits, never an insertion or a recursive call
+        reach_present = R.reachable_from([present], avoid={absent})
+        rep.check(not (reach_present & ok_exits) and bool(reach_present & err_exits), "C20-R1", "%s:cycle-test-true-branch-errs" % name,
                   "when the file is already active the function can still return Ok / does not return Err", where,
-                  sample={"contains_block": cb, "true_target": t_true, "err_exit_blocks": sorted(reach_true_only & err_exits)})
-        rep.check(not any(b in reach_true_only for b, _ in inserts), "C20-R1", "%s:cycle-test-true-branch-no-insert" % name,
+                  sample={"test_block": cb, "present_target": present, "err_exit_blocks": sorted(reach_present & err_exits)})
+        rep.check(not any(b in reach_present for b, _ in inserts if b != cb), "C20-R1", "%s:cycle-test-true-branch-no-insert" % name,
                   "the already-active branch reaches the insertion", where)
         for ib, it in inserts:
-            rep.check(R.dominates(cb, ib) and edge_dominates(R, swb, t_false, ib), "C20-R1", "%s:test-dominates-insert" % name,
+            rep.check(ib == cb or (R.dominates(cb, ib) and edge_dominates(R, swb, absent, ib)), "C20-R1", "%s:test-dominates-insert" % name,
                       "active-set insertion (line %d) is not dominated by the failed-membership edge of the cycle test" % it["l"], "%s:%d" % (R.file, it["l"]))
         for b, t, cal in cyc_calls:
-            rep.check(R.dominates(cb, b) and edge_dominates(R, swb, t_false, b), "C20-R1", "%s:test-dominates-recursion:%s" % (name, cal.split("::")[-1]),
+            rep.check(R.dominates(cb, b) and edge_dominates(R, swb, absent, b), "C20-R1", "%s:test-dominates-recursion:%s" % (name, label(b, cal)),
                       "recursive call to %s (line %d) is not dominated by the cycle test" % (cal, t["l"]), "%s:%d" % (R.file, t["l"]))
     # insertion must precede (dominate) every recursive call, otherwise the callee cannot see this file as active
     rep.check(len(inserts) >= 1, "C20-R1", "%s:insert-present" % name, "the current file is never marked active", where)
     for b, t, cal in cyc_calls:
-        rep.check(any(R.dominates(ib, b) for ib, _ in inserts), "C20-R1", "%s:insert-dominates-recursion:%s" % (name, cal.split("::")[-1]),
+        rep.check(any(R.dominates(ib, b) for ib, _ in inserts), "C20-R1", "%s:insert-dominates-recursion:%s" % (name, label(b, cal)),
                   "recursive call to %s (line %d) can run before the current file is marked active" % (cal, t["l"]), "%s:%d" % (R.file, t["l"]))
 
     # R2 pairing: insert -> Ok exit must pass remove(same key)
@@ -125,23 +258,46 @@ def check_guarded(F, rep, R, cg, bodies):
                   "%s:%d" % (R.file, it["l"]), sample={"insert_block": ib, "remove_blocks": sorted(good_removes), "ok_exit_blocks": sorted(ok_exits)})
     rep.floor("C20-R2", "Ok exits of %s" % name, len(ok_exits), 1)
 
-    # R3 fence immunity
-    T_calls = [(b, t, cal) for b, t, cal in cyc_calls if cal != name]
+    # R3 fence immunity.  The text the token expander receives = its text-typed parameter(s), followed back through any
+    # forwarding helper to the operands of R.
     varlocals = {v[0]: k for k, v in R.vars.items() if v[1] == ""}
     buf_locals = set()
-    for b, t, cal in T_calls:
-        srcs = sl.locals_feeding(t["args"][0]) & set(varlocals)
+    opaque_sites = [s for s in T_sites if s.opaque]
+    if opaque_sites:
+        rep.note("undecided", "C20-R3/R4: %d call(s) of the token expander go through a closure; the argument provenance clauses are not decided for them" % len(opaque_sites))
+    for s in T_sites:
+        if s.opaque:
+            continue
+        tb = cg.bodies[s.callee]
+        text_params = [i for i in range(1, tb.nargs + 1) if tb.locals[i] in TEXT_TYPES] or [1]
+        srcs = set()
+        for p in text_params:
+            for op in s.flows[p - 1].ops:
+                srcs |= sl.locals_feeding(op) & set(varlocals)
         strs = {l for l in srcs if R.locals[l] == "alloc::string::String"}
+        if any(s.flows[p - 1].captured for p in text_params):
+            # the text is a capture of a closure: all String captures are candidates, the single-source clause is not decided
+            rep.note("undecided", "C20-R3: the text handed to the token expander (line %d) is captured by a closure; candidates %d" % (s.term["l"], len(strs)))
+            if len(strs) != 1:
+                continue
         rep.check(len(strs) == 1, "C20-R3", "%s:expander-input-single-buffer" % name,
-                  "text handed to the token expander (line %d) does not come from exactly one String buffer: %s" % (t["l"], sorted(varlocals[l] for l in strs)),
-                  "%s:%d" % (R.file, t["l"]))
+                  "text handed to the token expander (line %d) does not come from exactly one String buffer: %d sources" % (s.term["l"], len(strs)),
+                  "%s:%d" % (R.file, s.term["l"]))
         buf_locals |= strs
-    rep.check(len(buf_locals) == 1, "C20-R3", "%s:one-outside-buffer" % name, "expander calls read different buffers", where)
+    inlined_expander = not T_sites and any(cal == name for _, _, cal in cyc_calls)
+    if opaque_sites and not buf_locals:
+        pass
+    elif inlined_expander:
+        # the token expander's line loop lives in R itself (R calls itself): the buffer clauses are not decided on that shape
+        rep.note("undecided", "C20-R3: %s recurses directly (token expander inlined); the outside-fence buffer clauses are not decided on this shape" % name)
+    else:
+        rep.check(len(buf_locals) == 1, "C20-R3", "%s:one-outside-buffer" % name, "expander calls read different buffers", where)
     # fence state: an Option<(char,usize)> variable
     fence = [l for l, n in varlocals.items() if R.locals[l].startswith("core::option::Option<(char")]
     rep.floor("C20-R3", "fence-state variable in %s" % name, len(fence), 1)
-    if len(buf_locals) == 1 and fence:
-        buf = next(iter(buf_locals))
+    mir9 = None
+    close_names = []
+    if fence:
         fl = fence[0]
         # switch on discriminant of fence var: find blocks computing discr(fence) then switch
         fence_sw = []
@@ -159,157 +315,292 @@ def check_guarded(F, rep, R, cg, bodies):
         delim = [(b, t) for b, t in R.calls() if R.locals[t["d"][0]].startswith("core::option::Option<(char,usize,usize)")]
         delim_sw = []
         for b, t in delim:
-            nb = t.get("t")
-            if nb is None:
-                continue
-            blk = R.blocks[nb]
-            tt = blk["t"]
-            if tt["k"] == "switch":
-                for s in blk["s"]:
-                    if s.get("rk") == "discr" and s["src"][0][0] == t["d"][0]:
-                        none_t = [tg for v, tg in tt["targets"] if v == 0] or [tt["else"]]
-                        some_t = [tg for v, tg in tt["targets"] if v == 1] or [tt["else"]]
-                        if none_t[0] != some_t[0]:
-                            delim_sw.append((nb, none_t[0]))
+            for nb, blk in enumerate(R.blocks):
+                tt = blk["t"]
+                if tt["k"] == "switch" and isinstance(tt["on"], list):
+                    for s in blk["s"]:
+                        if s.get("rk") == "discr" and s["src"][0][0] == t["d"][0] and s["d"][0] == tt["on"][0]:
+                            none_t = [tg for v, tg in tt["targets"] if v == 0] or [tt["else"]]
+                            some_t = [tg for v, tg in tt["targets"] if v == 1] or [tt["else"]]
+                            if none_t[0] != some_t[0]:
+                                delim_sw.append((nb, none_t[0], some_t[0]))
         rep.floor("C20-R3", "branch on the fence-delimiter test", len(delim_sw), 1)
+        # loop header(s) of the line loop: the iterator's next() that dominates the fence branch
+        headers = {hb for hb, ht in calls_matching(R, r"Iterator>::next$") if any(R.dominates(hb, sw) for sw, _, _ in fence_sw)}
         pushes = []
-        for b, t in calls_matching(R, r"alloc::string::String::(push_str|push|insert_str|extend)$|<alloc::string::String as core::ops::arith::AddAssign"):
-            if buf in sl.locals_feeding(t["args"][0]):
-                pushes.append((b, t))
-        rep.floor("C20-R3", "appends to the outside-fence buffer", len(pushes), 1)
-        for b, t in pushes:
-            okf = any(edge_dominates(R, sw, nt, b) for sw, nt, _ in fence_sw)
-            okd = any(edge_dominates(R, sw, nt, b) for sw, nt in delim_sw)
-            rep.check(okf and okd, "C20-R3", "%s:buffer-append-only-outside-fence" % name,
-                      "a line is appended to the include-expansion buffer (line %d) on a path where a fence is active or being opened (no-fence edge dominates: %s, no-delimiter edge dominates: %s)" % (t["l"], okf, okd),
-                      "%s:%d" % (R.file, t["l"]))
+        if len(buf_locals) == 1:
+            buf = next(iter(buf_locals))
+            pushes = string_appends(cg, R, sl, buf)
+            rep.floor("C20-R3", "appends to the outside-fence buffer", len(pushes), 1)
+            for b, t in pushes:
+                okf = any(edge_dominates(R, sw, nt, b) for sw, nt, _ in fence_sw)
+                okd = any(edge_dominates(R, sw, nt, b) for sw, nt, _ in delim_sw)
+                rep.check(okf and okd, "C20-R3", "%s:buffer-append-only-outside-fence" % name,
+                          "a line is appended to the include-expansion buffer (line %d) on a path where a fence is active or being opened (no-fence edge dominates: %s, no-delimiter edge dominates: %s)" % (t["l"], okf, okd),
+                          "%s:%d" % (R.file, t["l"]))
         # fenced lines copied verbatim: on the Some branch, before the loop continues, only `result.push_str(line)`; the
         # expander is not called on that branch
         for sw, nt, st_ in fence_sw:
             # stay inside the loop iteration: do not continue through the loop header (the iterator's next())
-            headers = {hb for hb, ht in calls_matching(R, r"Iterator>::next$") if R.dominates(hb, sw)}
-            reach = R.reachable_from([st_], avoid={sw} | headers)
+            hd = {hb for hb in headers if R.dominates(hb, sw)}
+            reach = R.reachable_from([st_], avoid={sw} | hd)
             bad = [t["l"] for b, t, cal in cyc_calls if b in reach and not any(edge_dominates(R, sw2, nt2, b) for sw2, nt2, _ in fence_sw)]
             rep.check(not bad, "C20-R3", "%s:no-expansion-inside-fence" % name,
                       "the include expander is called on the active-fence path (lines %s)" % bad, where)
+        mir9 = {"fl": fl, "fence_sw": fence_sw, "delim_sw": delim_sw, "headers": headers, "pushes": pushes}
+        # the close test = the local bool function that is asked about the payload of the fence state
+        close_names = sorted({last(callee_of(t)) for _, t in R.calls() if callee_of(t) in cg.bodies and R.locals[t["d"][0]] == "bool"
+                              and any(isinstance(a, list) and fl in sl.locals_feeding(a) for a in t["args"])})
 
-    # R4 relative resolution, in every function on the cycle that joins paths
-    cycle_fns = {cal for _, _, cal in cyc_calls} | {name}
+    # R4 relative resolution: every Path::join in a function on the cycle, or in a helper (one or two levels) such a function calls.
+    # Provenance is evaluated across the helper's frame (parameters bound to the arguments of the call).
     njoin = 0
     for fn in sorted(cycle_fns):
-        b = cg.bodies[fn]
-        s2 = Slice(b)
-        for blk, t in calls_matching(b, r"std::path::Path::join$"):
-            njoin += 1
-            roots = s2.roots(t["args"][0])
-            parents = [r for r in roots if r[0] == "call" and r[1].endswith("Path::parent")]
-            cwd = [r for r in roots if r[0] == "call" and re.search(r"current_dir|env::|home_dir|temp_dir", r[1])]
-            ok = bool(parents) and not cwd
-            detail = None
-            if ok:
-                # parent()'s receiver must derive from a Path parameter of this function
-                pr = set()
-                for pb, pt in calls_matching(b, r"Path::parent$"):
-                    pr |= s2.roots(pt["args"][0])
-                ok = any(r[0] == "arg" and "Path" in b.locals[r[1]] for r in pr) and not any(r[0] == "call" and re.search(r"current_dir|env::", r[1]) for r in pr)
-                detail = sorted(map(str, pr))
-            rep.check(ok, "C20-R4", "%s:join-base-is-parent-of-current-file" % fn,
-                      "include path (line %d) is not resolved against the parent of the including file's path (roots: %s)" % (t["l"], sorted(map(str, roots))[:6]),
-                      "%s:%d" % (b.file, t["l"]), detail, sample={"join_line": t["l"], "base_roots": sorted(map(str, parents))})
+        X = cg.bodies[fn]
+        for fr in helper_frames(cg, X, stop=cycle_fns, depth=2):
+            jb = fr[-1][0]
+            for blk, t in calls_matching(jb, r"std::path::Path::join$"):
+                njoin += 1
+                roots = ip_roots(fr, t["args"][0])
+                parents = [r for r in roots if r[0] == "call" and r[1].endswith("Path::parent")]
+                cwd = [r for r in roots if r[0] == "call" and CWD.search(r[1])]
+                ok = bool(parents) and not cwd
+                detail = None
+                if ok:
+                    # parent()'s receiver must derive from a Path parameter of the function on the cycle
+                    pr = set()
+                    for r in parents:
+                        pt = fr[r[3]][0].blocks[r[2]]["t"]
+                        pr |= ip_roots(fr, pt["args"][0], r[3])
+                    ok = any(r[0] == "arg" and r[-1] == 0 and "Path" in X.locals[r[1]] for r in pr) and not any(r[0] == "call" and CWD.search(r[1]) for r in pr)
+                    if not ok and X is R and not any(r[0] == "call" and CWD.search(r[1]) for r in pr):
+                        # token expander inlined into the guarded function: the base is the parent of R's own canonical path (the insert key)
+                        keyl = set()
+                        for _, it in inserts:
+                            keyl |= sl.locals_feeding(it["args"][1]) & set(varlocals)
+                        ok = any(r[3] == 0 and (sl.locals_feeding(R.blocks[r[2]]["t"]["args"][0]) & keyl) for r in parents)
+                    detail = sorted(str(r[:-1]) for r in pr)
+                rep.check(ok, "C20-R4", "%s:join-base-is-parent-of-current-file" % fn,
+                          "include path (line %d) is not resolved against the parent of the including file's path (roots: %s)" % (t["l"], sorted(str(r[:-1]) for r in roots)[:6]),
+                          "%s:%d" % (jb.file, t["l"]), detail, sample={"join_line": t["l"], "base_roots": sorted(str(r[:-1]) for r in parents)})
     rep.floor("C20-R4", "Path::join in the include expander", njoin, 1)
     # and the guarded function passes *its own* canonical path (the insert key) as that parameter
-    for b, t, cal in T_calls:
-        tb = cg.bodies[cal]
+    for s in T_sites:
+        if s.opaque:
+            continue
+        tb = cg.bodies[s.callee]
         path_params = [i for i in range(1, tb.nargs + 1) if "Path" in tb.locals[i] and "HashSet" not in tb.locals[i]]
         for ib, it in inserts:
             key_locals = sl.locals_feeding(it["args"][1]) & set(varlocals)
             for p in path_params:
-                arg = t["args"][p - 1]
-                rep.check(bool(sl.locals_feeding(arg) & key_locals), "C20-R4", "%s:passes-own-canonical-path" % name,
-                          "the path handed to the token expander (line %d) is not the canonical path of the file being expanded" % t["l"], "%s:%d" % (R.file, t["l"]))
+                feeding = set()
+                for op in s.flows[p - 1].ops:
+                    feeding |= sl.locals_feeding(op)
+                rep.check(bool(feeding & key_locals), "C20-R4", "%s:passes-own-canonical-path" % name,
+                          "the path handed to the token expander (line %d) is not the canonical path of the file being expanded" % s.term["l"], "%s:%d" % (R.file, s.term["l"]))
     # the canonical path itself derives from the function's path parameter
     for ib, it in inserts:
         r = sl.roots(it["args"][1])
-        rep.check(any(x[0] == "call" and x[1].endswith("canonicalize") for x in r), "C20-R4",
+        rep.check(derives_from_call(cg, R, it["args"][1], re.compile(r"canonicalize$")), "C20-R4",
                   "%s:active-key-is-canonical-path" % name, "the active-set key does not derive from canonicalize(path): two spellings of one file (`a.mec`, `sub/../a.mec`, a symlink) are different keys, so a cycle through them is not detected (roots: %s)" % sorted(map(str, r))[:4], where)
 
     # R5 who may call
+    def fresh(rr):
+        return any(x[0] == "call" and "HashSet" in x[1] and FRESH_SET.search(x[1]) for x in rr)
+
+    def entries(fn, param, depth=3, seen=()):
+        """who supplies the active set that outside function `fn` hands on as its parameter `param`:
+        list of (supplier function, fresh?) - a wrapper that passes on its own parameter is looked through"""
+        sites = [(gb, t2) for g, gb in cg.bodies.items() if g not in cycle_fns for _, t2 in gb.calls() if callee_of(t2) == fn]
+        if not sites or depth == 0 or fn in seen:
+            return [(fn, False)]
+        out = []
+        for gb, t2 in sites:
+            rr = Slice(gb).roots(t2["args"][param - 1])
+            ps = [x[1] for x in rr if x[0] == "arg"]
+            if fresh(rr) and not ps:
+                out.append((gb.fn, True))
+            elif ps and not fresh(rr):
+                for p in ps:
+                    out += entries(gb.fn, p, depth - 1, seen + (fn,))
+            else:
+                out.append((gb.fn, False))
+        return out
+
     callers = set()
     for f, b in cg.bodies.items():
         if f == name or f.startswith(name + "::"):
             continue
         for blk, t in b.calls():
-            if (t.get("f") or t["tf"]) in cycle_fns:
-                callers.add((f, t.get("f") or t["tf"]))
+            if callee_of(t) in cycle_fns:
+                callers.add((f, callee_of(t)))
     outside = [c for c in callers if c[0] not in cycle_fns]
+    verdicts = {}
     for f, callee in sorted(outside):
         b = cg.bodies[f]
         s3 = Slice(b)
-        # an outside caller must enter through the guarded function with a fresh set
-        ok = callee == name
-        if ok:
-            for blk, t in b.calls():
-                if (t.get("f") or t["tf"]) == name:
-                    for a in set_args:
-                        rr = s3.roots(t["args"][a - 1])
-                        ok = ok and any(x[0] == "call" and x[1].endswith("HashSet::<T, std::hash::random::RandomState>::new") or x[0] == "call" and "HashSet" in x[1] and x[1].endswith("::new") for x in rr)
+        # an outside caller must enter through the guarded function with a fresh set; a wrapper that hands on its own
+        # set parameter is looked through: the obligation is on whoever creates the set
+        if callee != name:
+            verdicts.setdefault(f, []).append((False, callee, b))
+            continue
+        for blk, t in b.calls():
+            if callee_of(t) == name:
+                for a in set_args:
+                    rr = s3.roots(t["args"][a - 1])
+                    ps = [x[1] for x in rr if x[0] == "arg"]
+                    if ps and not fresh(rr):
+                        for p in ps:
+                            for g, okg in entries(f, p):
+                                verdicts.setdefault(g, []).append((okg, callee, cg.bodies[g]))
+                    else:
+                        verdicts.setdefault(f, []).append((fresh(rr) and not ps, callee, b))
+    for f in sorted(verdicts):
+        ok = all(v[0] for v in verdicts[f])
+        callee, b = verdicts[f][0][1], verdicts[f][0][2]
         rep.check(ok, "C20-R5", "entry:%s" % f, "%s enters the include expander through %s without a fresh active set / not through the guarded function" % (f, callee), b.where())
     rep.floor("C20-R5", "outside callers of the include expander", len(outside), 1)
 
-    # R6: fallible path operations (canonicalize, File::open, read_to_string) are `?`-propagated
+    # R6: fallible path operations (canonicalize, File::open, read_to_string) are propagated: `?` (possibly after map_err), or an
+    # explicit match / let-else whose failure edge returns Err.  Operations moved into a helper are followed: the helper must
+    # propagate (or return) the result and the call of the helper must be propagated in turn.
     for fn in sorted(cycle_fns):
-        b = cg.bodies[fn]
-        for blk, t in calls_matching(b, r"Path::canonicalize$|fs::File::open$|Read>::read_to_string$|fs::read_to_string$"):
-            # result must flow into Try::branch (possibly via map_err) whose Break edge reaches an Err exit
-            d = t["d"][0]
-            flows = False
-            cur = {d}
-            for _ in range(4):
-                nxt = set()
-                for b2, t2 in b.calls():
-                    if any(isinstance(a, list) and a[0] in cur for a in t2["args"]):
-                        c2 = t2.get("f") or t2["tf"]
-                        if c2.endswith("Try>::branch"):
-                            flows = True
-                        elif c2.endswith("map_err") or c2.endswith("::ok_or") or c2.endswith("map"):
-                            nxt.add(t2["d"][0])
-                if flows or not nxt:
-                    break
-                cur = nxt
-            rep.check(flows, "C20-R6", "%s:%s-propagated" % (fn, (t.get("f") or t["tf"]).split("::")[-1]),
-                      "the result of %s (line %d) is not propagated with `?`: a missing include would not fail the load" % (t.get("f") or t["tf"], t["l"]),
-                      "%s:%d" % (b.file, t["l"]))
-    run_r7(F, rep, rep.tier)
-    run_r8(F, rep)
-    run_r9(F, rep)
+        X = cg.bodies[fn]
+        for fr in helper_frames(cg, X, stop=cycle_fns, depth=2):
+            b = fr[-1][0]
+            for blk, t in calls_matching(b, r"Path::canonicalize$|fs::File::open$|Read>::read_to_string$|fs::read_to_string$"):
+                idx = len(fr) - 1
+                term = t
+                flows = True
+                while True:
+                    how = result_checked(fr[idx][0], term)
+                    if idx == 0:
+                        flows = how in ("try", "match")
+                        break
+                    if how not in ("try", "match", "return"):
+                        flows = False
+                        break
+                    term = fr[idx][1]
+                    idx -= 1
+                rep.check(flows, "C20-R6", "%s:%s-propagated" % (fn, callee_of(t).split("::")[-1]),
+                          "the result of %s (line %d) is not propagated with `?`: a missing include would not fail the load" % (callee_of(t), t["l"]),
+                          "%s:%d" % (b.file, t["l"]))
+    run_r7(F, rep, rep.tier, close_names)
+    run_r8(F, rep, cg, sorted(reentry), inlined_expander)
+    run_r9(F, rep, R, mir9, cg)
 
 
-def run_r7(F, rep, tier="quick"):
+def run_r7(F, rep, tier="quick", close_tests=()):
     """C20-R7: a line closes a code fence iff it uses the opening marker and is at least as long as the opening run (decided over a finite table)"""
     from lib.facts import find, walk, is_node, path_of, render
     from lib.minieval import ev, NoEval
     rep.rule("C20-R7", "is_code_fence_close(line, marker, min_len): over all (line marker, opening marker, run length, opening length) the early `return false` guards reject exactly "
                        "the lines with another marker or a SHORTER run - a longer run still closes (CommonMark), so text after a fence is never mistaken for fenced text or vice versa")
-    fns = [it for c in ("mech.lib", "mech.bin") for it in F.syn(c) if it["k"] == "fn" and it["name"] == "is_code_fence_close"]
+    names = list(close_tests) or ["is_code_fence_close"]
+    fns = [it for c in ("mech.lib", "mech.bin") for it in F.syn(c) if it["k"] == "fn" and it["name"] in names]
     if not rep.check(len(fns) >= 1, "C20-R7", "anchor:is_code_fence_close", "is_code_fence_close not found"):
         return
     it = fns[0]
     params = [p[0][1] for p in it["sig"]["inputs"] if is_node(p[0]) and p[0][0] == "pident"]
+    # the (marker, run length, rest offset) of the line: whatever pattern takes apart the result of code_fence_delimiter
+    # (`let Some((m, c, a)) = .. else`, `if let`, `match .. { Some((m, c, a)) => .. }`)
     bound = None
-    for st in it["body"]:
-        if st[0] == "let" and st[2] is not None and any(path_of(c[1]) and path_of(c[1]).endswith("code_fence_delimiter") for c in find(st[2], "call")):
-            ids = [p[1] for p in find(st[1], "pident")]
+    is_delim = lambda e: any(path_of(c[1]) and path_of(c[1]).endswith("code_fence_delimiter") for c in find(e, "call"))
+    pats = [(st[1], st[2]) for st in find(it["body"], "let") if len(st) > 2 and st[2] is not None]
+    pats += [(lc[1], lc[2]) for lc in find(it["body"], "letc")]
+    pats += [(arm[0], m[1]) for m in find(it["body"], "match") for arm in m[2]]
+    for pat, init in pats:
+        if is_node(init) and is_delim(init):
+            ids = [p[1] for p in find(pat, "pident")]
             if len(ids) == 3:
                 bound = ids
     if not rep.check(len(params) == 3 and bound is not None, "C20-R7", "anchor:shape", "is_code_fence_close no longer has the (line, marker, min_len) / let Some((marker, count, after)) shape: %s %s" % (params, bound)):
         return
-    guards = []
-    for st in it["body"]:
-        if st[0] == "expr" and is_node(st[1]) and st[1][0] == "if":
-            n = st[1]
-            rets = [x for s2 in n[2] for x in walk(s2) if x[0] == "ret"]
-            if rets and render(rets[0][1]) == "false":
-                guards.append(n[1])
+    # named locals for sub-expressions (`let same_marker = line_marker == marker;`) are evaluated on demand
+    simple_lets = {st[1][1]: st[2] for st in find(it["body"], "let") if len(st) > 2 and st[2] is not None and is_node(st[1]) and st[1][0] == "pident"}
+
+    class Env(dict):
+        def __contains__(self, k):
+            return dict.__contains__(self, k) or k in simple_lets
+
+        def __getitem__(self, k):
+            if not dict.__contains__(self, k):
+                self[k] = ev(simple_lets[k], self)
+            return dict.__getitem__(self, k)
+    # the conditions under which the function answers `false`: (expression, value of the expression that rejects)
+    #   `if c { return false }` (also in else-if chains)            -> (c, True)
+    #   value `a && b && ..` / `if c { .. } else { false }`          -> (a, False), (b, False), (c, False) for the interpretable conjuncts
+    rejects = []
+
+    def guard_ifs(n):
+        rets = [x for s2 in n[2] for x in walk(s2) if x[0] == "ret"]
+        if rets and render(rets[0][1]) == "false":
+            rejects.append((n[1], True))
+        if is_node(n[3]) and n[3][0] == "if":
+            guard_ifs(n[3])
+
+    def conjuncts(e):
+        while is_node(e) and e[0] == "paren":
+            e = e[1]
+        if is_node(e) and e[0] == "bin" and e[1] == "&&":
+            return conjuncts(e[2]) + conjuncts(e[3])
+        return [e]
+
+    def value_rejects(e, depth=0):
+        while is_node(e) and e[0] == "paren":
+            e = e[1]
+        if is_node(e) and e[0] == "if" and depth < 4 and e[3] is not None and not (is_node(e[1]) and e[1][0] == "letc"):
+            els = e[3]
+            els_tail = els[1][-1][1] if is_node(els) and els[0] == "block" and els[1] and els[1][-1][0] == "expr" else els
+            if render(els_tail) == "false":
+                for c in conjuncts(e[1]):
+                    rejects.append((c, False, "opt"))
+                th = e[2][-1] if e[2] else None
+                if th is not None and th[0] == "expr":
+                    value_rejects(th[1], depth + 1)
+            return
+        for c in conjuncts(e):
+            rejects.append((c, False, "opt"))
+    def falsy(e):
+        if is_node(e) and e[0] == "block":
+            return bool(e[1]) and e[1][-1][0] == "expr" and falsy(e[1][-1][1])
+        return is_node(e) and render(e) in ("false", "return false")
+
+    def process_block(stmts, depth=0):
+        for i, st in enumerate(stmts):
+            is_tail = i == len(stmts) - 1 and st[0] == "expr" and not (len(st) > 2 and st[2])
+            e = st[1] if st[0] == "expr" else None
+            if is_node(e) and e[0] == "if":
+                if is_tail and e[3] is not None:
+                    if is_node(e[1]) and e[1][0] == "letc":
+                        # `if let Some(..) = delimiter(line) { <rest> } else { false }`: the rest decides
+                        if falsy(e[3]) and depth < 4:
+                            process_block(e[2], depth + 1)
+                    else:
+                        value_rejects(e)
+                else:
+                    guard_ifs(e)
+            elif is_node(e) and e[0] == "match" and is_tail and depth < 4:
+                live = [a for a in e[2] if not falsy(a[2])]
+                if len(live) == 1 and a_is_plain(live[0]):
+                    body = live[0][2]
+                    process_block(body[1] if is_node(body) and body[0] == "block" else [["expr", body, False]], depth + 1)
+            elif is_tail:
+                value_rejects(e)
+
+    def a_is_plain(arm):
+        return arm[1] is None
+    process_block(it["body"])
+    probe = Env({bound[0]: "`", bound[1]: 3, bound[2]: 0, params[1]: "`", params[2]: 3})
+    usable = []
+    for r in rejects:
+        if len(r) == 3:
+            try:
+                ev(r[0], Env(probe))
+            except NoEval:
+                continue      # a conjunct about the rest of the line (string value): not part of the (marker, length) table
+        usable.append(r)
+    guards = [r[0] for r in usable]
     rep.floor("C20-R7", "early-return guards in is_code_fence_close", len(guards), 1)
     wrong = []
     n = 0
@@ -319,7 +610,7 @@ def run_r7(F, rep, tier="quick"):
                 for cnt in ((3, 4, 5) if tier != "thorough" else range(3, 12)):
                     for ml in ((3, 4, 5) if tier != "thorough" else range(3, 12)):
                         env = {bound[0]: lm, bound[1]: cnt, bound[2]: 0, params[1]: om, params[2]: ml}
-                        rejected = any(bool(ev(g, env)) for g in guards)
+                        rejected = any(bool(ev(r[0], Env(env))) == r[1] for r in usable)
                         expect_reject = (lm != om) or (cnt < ml)
                         n += 1
                         if rejected != expect_reject:
@@ -332,14 +623,101 @@ def run_r7(F, rep, tier="quick"):
               "is_code_fence_close (src/mechfs.rs)", sample={"combinations": n, "guards": [render(g) for g in guards]})
 
 
-def run_r8(F, rep):
+LINE_SPLIT = re.compile(r"split_inclusive$|::lines$|::split$|::split_terminator$|::chars$")
+
+
+def option_switches(body, local):
+    """(switch_block, none_target, some_target) of every branch on the discriminant of Option-typed `local`"""
+    out = []
+    for i, blk in enumerate(body.blocks):
+        t = blk["t"]
+        if t["k"] == "switch" and isinstance(t["on"], list):
+            for s in blk["s"]:
+                if s.get("rk") == "discr" and s["src"][0][0] == local and s["src"][0][1] == "" and s["d"][0] == t["on"][0]:
+                    none_t = [tg for v, tg in t["targets"] if v == 0] or [t["else"]]
+                    some_t = [tg for v, tg in t["targets"] if v == 1] or [t["else"]]
+                    if none_t[0] != some_t[0]:
+                        out.append((i, none_t[0], some_t[0]))
+    return out
+
+
+def run_r8_cfg(rep, cg, tname):
+    """C20-R8 on the MIR of the token expander (any spelling of the loop body / the exits).  Returns True when the line loop was found."""
+    tb = cg.bodies.get(tname)
+    if tb is None:
+        return False
+    sl = Slice(tb, extra_pass=LINE_SPLIT)
+    text_params = [i for i in range(1, tb.nargs + 1) if tb.locals[i] in TEXT_TYPES]
+    loops = []
+    for hb, ht in calls_matching(tb, r"Iterator>::next$"):
+        if any(("arg", p) in sl.roots(ht["args"][0]) for p in text_params):
+            for sw in option_switches(tb, ht["d"][0]):
+                loops.append((hb, ht) + sw)
+    if len(loops) != 1:
+        return False
+    hb, ht, hsw, none_t, some_t = loops[0]
+    where = "%s (mech)" % last(tname)
+    ok_exits, err_exits = result_exits(tb)
+    rep.floor("C20-R8", "Ok exits of the token expander", len(ok_exits), 1)
+    early = sorted(b for b in ok_exits if not edge_dominates(tb, hsw, none_t, b))
+    rep.check(not early, "C20-R8", "cfg:ok-exit-only-after-the-last-line",
+              "%s can return Ok (line %s) without the line loop having run to the end of the chunk: include lines behind the exit stay literal text and a cycle or a missing "
+              "file behind them is accepted" % (last(tname), [tb.blocks[b]["s"][-1]["l"] if tb.blocks[b]["s"] else tb.blocks[b]["t"].get("l") for b in early]), where)
+    in_loop = lambda b: edge_dominates(tb, hsw, some_t, b)
+    pushed = set()
+    for b, t in calls_matching(tb, PUSH_RX):
+        if in_loop(b):
+            pushed |= {l for l in Slice(tb).locals_feeding(t["args"][0]) if tb.locals[l] == "alloc::string::String"}
+    returned = set()
+    for b in ok_exits:
+        for s in tb.blocks[b]["s"]:
+            if s["d"][0] == 0 and s.get("rk") == "agg":
+                for o in s["src"]:
+                    returned |= {l for l in Slice(tb).locals_feeding(o) if tb.locals[l] == "alloc::string::String"}
+    rep.check(bool(pushed & returned), "C20-R8", "cfg:returns-the-accumulator",
+              "the Ok value of %s is not the String the line loop appends to" % last(tname), where)
+    per_line = 0
+    for fr in helper_frames(cg, tb, stop={tname}, depth=2):
+        b0 = fr[-1][0]
+        for b, t in b0.calls():
+            if callee_of(t).endswith("standalone_braced_content"):
+                top_blk = b if len(fr) == 1 else [i for i, t0 in tb.calls() if t0 is fr[1][1]][0]
+                if in_loop(top_blk):
+                    per_line += 1
+    if per_line == 0 and not any(f.endswith("::standalone_braced_content") for f in cg.bodies):
+        rep.note("undecided", "C20-R8: no function standalone_braced_content in the crate any more (inlined?); the per-line test is not identified")
+    else:
+        rep.check(per_line >= 1, "C20-R8", "cfg:per-line-test",
+                  "the line loop of %s does not apply standalone_braced_content to each line" % last(tname), where)
+    return True
+
+
+def run_r8(F, rep, cg=None, expanders=(), inlined=False):
     """C20-R8: the token expander examines every line of the chunk it is given"""
     from lib.facts import find, walk, is_node, path_of, render
     rep.rule("C20-R8", "expand_mechdown_include_tokens examines every line: its only Ok exit follows the loop over all lines of the chunk and returns the accumulator that loop fills "
                        "(no early `return Ok(..)` before the loop, no Ok return or break inside it - a pre-filter that passes a chunk through unexamined leaves include lines unexpanded "
                        "and cycles / missing targets behind them undetected); the stand-alone-line test is standalone_braced_content on each line")
-    fns = [it for c in ("mech.lib", "mech.bin") for it in F.syn(c) if it["k"] == "fn" and it["name"] == "expand_mechdown_include_tokens"]
-    if not rep.check(len(fns) >= 1, "C20-R8", "anchor:expand_mechdown_include_tokens", "expand_mechdown_include_tokens not found"):
+    # the token expander = the function on the recursion cycle that calls the guarded function back (role, not spelling)
+    if inlined and not expanders:
+        rep.note("undecided", "C20-R8: the token expander is inlined into the guarded function (direct recursion); its line-loop clauses are not decided on this shape")
+        return
+    cfg_ok = False
+    for tname in expanders:
+        cfg_ok = run_r8_cfg(rep, cg, tname) or cfg_ok
+    names = [last(f) for f in expanders] or ["expand_mechdown_include_tokens"]
+    fns = [it for c in ("mech.lib", "mech.bin") for it in F.syn(c) if it["k"] == "fn" and it["name"] in names]
+
+    def shape(cond, key, msg):
+        """a syntactic anchor: when the CFG form of the rule has decided the clause, an unrecognised spelling is not an alarm"""
+        if cond:
+            rep.ok("C20-R8", key)
+        elif cfg_ok:
+            rep.note("undecided", "C20-R8 (syntactic form) %s: %s - decided on the CFG instead" % (key, msg))
+        else:
+            rep.bad("C20-R8", key, msg)
+        return cond
+    if not shape(len(fns) >= 1, "anchor:%s" % names[0], "%s not found" % names[0]):
         return
     it = fns[0]
     body = it["body"]
@@ -347,7 +725,7 @@ def run_r8(F, rep):
     src = params[0] if params else "source"
     loops = [(i, st[1]) for i, st in enumerate(body) if st[0] == "expr" and is_node(st[1]) and st[1][0] == "for"
              and any(n[0] == "path" and n[1] == src for n in walk(st[1][2])) and re.search(r"split_inclusive|lines|split\(", render(st[1][2]))]
-    if not rep.check(len(loops) == 1, "C20-R8", "anchor:line-loop", "expected one top-level loop over the lines of `%s`, found %d" % (src, len(loops))):
+    if not shape(len(loops) == 1, "anchor:line-loop", "expected one top-level loop over the lines of `%s`, found %d" % (src, len(loops))):
         return
     li, loop = loops[0]
 
@@ -368,25 +746,130 @@ def run_r8(F, rep):
     tail = body[-1]
     tail_e = tail[1] if tail[0] == "expr" else None
     ret_ok = is_node(tail_e) and tail_e[0] == "call" and path_of(tail_e[1]) == "Ok" and tail_e[2] and render(tail_e[2][0]) in acc
-    rep.check(bool(ret_ok), "C20-R8", "returns-the-accumulator", "the final value of expand_mechdown_include_tokens is `%s`, not the buffer the line loop fills (%s)" % (
-        render(tail_e)[:40] if tail_e is not None else "?", sorted(acc)), "expand_mechdown_include_tokens (mech)")
+    if ret_ok or not cfg_ok:
+        rep.check(bool(ret_ok), "C20-R8", "returns-the-accumulator", "the final value of expand_mechdown_include_tokens is `%s`, not the buffer the line loop fills (%s)" % (
+            render(tail_e)[:40] if tail_e is not None else "?", sorted(acc)), "expand_mechdown_include_tokens (mech)")
+    else:
+        rep.note("undecided", "C20-R8 (syntactic form) returns-the-accumulator: tail expression not of the form Ok(<accumulator>) - decided on the CFG instead")
     per_line = [c for c in find(loop[3], "call") if (path_of(c[1]) or "").endswith("standalone_braced_content")]
-    rep.check(len(per_line) == 1, "C20-R8", "per-line-test:standalone_braced_content", "the line loop does not apply standalone_braced_content to each line (%d calls)" % len(per_line),
-              "expand_mechdown_include_tokens (mech)")
+    if len(per_line) == 1 or not cfg_ok:
+        rep.check(len(per_line) == 1, "C20-R8", "per-line-test:standalone_braced_content", "the line loop does not apply standalone_braced_content to each line (%d calls)" % len(per_line),
+                  "expand_mechdown_include_tokens (mech)")
+    else:
+        rep.note("undecided", "C20-R8 (syntactic form) per-line-test: %d direct calls in the loop body - decided on the CFG instead" % len(per_line))
 
 
-def run_r9(F, rep):
+def run_r9_cfg(rep, cg, R, m):
+    """C20-R9 on the MIR of the guarded function: the four typestate clauses as path properties of the line loop.
+    Returns True when the loop, the fence-state branch and the opener branch were all found."""
+    if not m or not (m["fence_sw"] and m["delim_sw"] and m["headers"]):
+        return False
+    fl, fence_sw, delim_sw, headers, pushes = m["fl"], m["fence_sw"], m["delim_sw"], m["headers"], m["pushes"]
+    sl = Slice(R)
+    defs = R.defs()
+    where = "%s (mech)" % last(R.fn)
+
+    def agg_variant(s, depth=2):
+        if s.get("k") == "call":
+            return None
+        if s.get("rk") == "agg" and s.get("adt", "").endswith("option::Option"):
+            return s["var"]
+        if s.get("rk") == "use" and depth and isinstance(s["src"][0], list) and s["src"][0][1] == "":
+            ds = defs.get(s["src"][0][0], [])
+            vs = {agg_variant(x[1], depth - 1) for x in ds}
+            if len(vs) == 1:
+                return vs.pop()
+        return None
+    sets, clears, other, handed = [], [], [], []
+    for blk, s in defs.get(fl, []):
+        v = agg_variant(s) if s["d"][1] == "" else None
+        if v == "Some":
+            sets.append(blk)
+        elif v == "None":
+            clears.append(blk)
+        else:
+            other.append((blk, s.get("l")))
+    # writes through `&mut state`: Option::take = clear, Option::insert/replace = set, a local helper = not analysed
+    for blk, s in R.stmts():
+        if s.get("rk") == "ref" and s.get("mut") and s["src"][0][0] == fl:
+            refl = s["d"][0]
+            for cb, ct in R.calls():
+                if any(isinstance(a, list) and refl in sl.locals_feeding(a) for a in ct["args"]):
+                    c = callee_of(ct)
+                    if re.search(r"Option::<T>::take$", c):
+                        clears.append(cb)
+                    elif re.search(r"Option::<T>::(insert|replace|get_or_insert)$", c):
+                        sets.append(cb)
+                    elif c in cg.bodies:
+                        handed.append((cb, c))
+                    else:
+                        other.append((cb, ct.get("l")))
+    if handed:
+        rep.note("undecided", "C20-R9: the fence state is handed by `&mut` to %s; its writes are not analysed" % sorted({last(c) for _, c in handed}))
+        return True
+    in_loop = lambda b: not all(R.dominates(b, h) for h in headers)
+    sets = [b for b in sets if in_loop(b)]
+    clears = [b for b in clears if in_loop(b)]
+    other = [(b, l) for b, l in other if in_loop(b)]
+    # (a) every path from "this line opens a fence" back to the loop header records the state
+    leaks = []
+    for dsw, d_none, d_some in delim_sw:
+        reach = R.reachable_from([d_some], avoid=set(sets))
+        if reach & headers:
+            leaks.append(dsw)
+    reachable_sets = [b for b in sets if any(b in R.reachable_from([d_some]) for _, _, d_some in delim_sw)]
+    rep.check(not leaks, "C20-R9", "cfg:opener-sets-state-on-every-path",
+              "a line that opens a fence can reach the next line %s: a fence that opens with no pending outside text (first line of a file, two fences back to back) is not entered" % (
+                  "with the fence state set only on some paths" if reachable_sets else "without the fence state being set"), where)
+    # (b) cleared at least once, and only on the fenced path under the close test (a bool call fed by the state's payload)
+    close_true = []
+    for cb, ct in R.calls():
+        if R.locals[ct["d"][0]] == "bool" and any(isinstance(a, list) and fl in sl.locals_feeding(a) for a in ct["args"]):
+            close_true += [(swb, tt) for swb, tt, ft in bool_switches(R, ct)]
+    unguarded = [b for b in clears if not (any(edge_dominates(R, swb, tt, b) for swb, tt in close_true) and any(edge_dominates(R, sw, st_, b) for sw, _, st_ in fence_sw))]
+    rep.check(len(clears) >= 1 and not unguarded, "C20-R9", "cfg:state-cleared-only-on-close",
+              "the fence state is cleared %d time(s) in the line loop, %d of them not under the close test of the open fence" % (len(clears), len(unguarded)), where)
+    # (c) a fenced line and an opening line end the iteration: neither reaches the outside-text handling, a fenced line is not tested as an opener
+    fall = []
+    push_blocks = {b for b, _ in pushes}
+    for sw, _, st_ in fence_sw:
+        reach = R.reachable_from([st_], avoid=headers)
+        if reach & push_blocks or reach & {d for d, _, _ in delim_sw}:
+            fall.append(sw)
+    for dsw, _, d_some in delim_sw:
+        if R.reachable_from([d_some], avoid=headers) & push_blocks:
+            fall.append(dsw)
+    rep.check(not fall, "C20-R9", "cfg:fence-branches-end-the-iteration", "a fence branch falls through to the outside-text handling", where)
+    # (d) nothing else writes the state: Some only on the opener path, no writes of another form
+    stray = [b for b in sets if not any(edge_dominates(R, dsw, d_some, b) for dsw, _, d_some in delim_sw)]
+    rep.check(not other and not stray, "C20-R9", "cfg:no-other-state-writes",
+              "the fence state is also written at lines %s" % sorted({l for _, l in other} | {R.blocks[b]["t"].get("l") for b in stray}, key=str), where)
+    return True
+
+
+def run_r9(F, rep, R=None, mir9=None, cg=None):
     """C20-R9: fence typestate of the include expander"""
     from lib.facts import find, walk, is_node, path_of, render, render_pat
     rep.rule("C20-R9", "fence typestate: in expand_mechdown_includes_recursive every line that opens a fence sets the fence state unconditionally (the assignment sits at the top level of the "
                        "`if let Some(..) = code_fence_delimiter(line)` branch, not under the flush of the pending text), the state is cleared only under is_code_fence_close, and both "
                        "branches end in `continue` - an opener that is not recorded has its fenced include lines expanded and its closing line read as an opener")
-    fns = [it for c in ("mech.lib", "mech.bin") for it in F.syn(c) if it["k"] == "fn" and it["name"] == "expand_mechdown_includes_recursive"]
-    if not rep.check(len(fns) >= 1, "C20-R9", "anchor:expand_mechdown_includes_recursive", "expand_mechdown_includes_recursive not found"):
+    cfg_ok = run_r9_cfg(rep, cg, R, mir9) if R is not None else False
+    gname = last(R.fn) if R is not None else "expand_mechdown_includes_recursive"
+
+    def shape(cond, key, msg):
+        if cond:
+            rep.ok("C20-R9", key)
+        elif cfg_ok:
+            rep.note("undecided", "C20-R9 (syntactic form) %s: %s - decided on the CFG instead" % (key, msg))
+        else:
+            rep.bad("C20-R9", key, msg)
+        return cond
+    fns = [it for c in ("mech.lib", "mech.bin") for it in F.syn(c) if it["k"] == "fn" and it["name"] == gname]
+    if not shape(len(fns) >= 1, "anchor:%s" % gname, "%s not found" % gname):
         return
     it = fns[0]
     loops = [f for f in find(it["body"], "for") if re.search(r"split_inclusive|lines\(", render(f[2]))]
-    if not rep.check(len(loops) == 1, "C20-R9", "anchor:line-loop", "the line loop was not found (%d)" % len(loops)):
+    if not shape(len(loops) == 1, "anchor:line-loop", "the line loop was not found (%d)" % len(loops)):
         return
     body = loops[0][3]
     opener = closer = None
@@ -397,7 +880,7 @@ def run_r9(F, rep):
                 opener = e
             elif is_node(e[1][2]) and e[1][2][0] == "path":
                 closer = (e, e[1][2][1])
-    if not rep.check(opener is not None and closer is not None, "C20-R9", "anchor:fence-branches", "the fenced-line branch and the opener branch were not both found at the top level of the line loop"):
+    if not shape(opener is not None and closer is not None, "anchor:fence-branches", "the fenced-line branch and the opener branch were not both found at the top level of the line loop"):
         return
     state = closer[1]
     top_sets = [s_ for s_ in opener[2] if s_[0] == "expr" and is_node(s_[1]) and s_[1][0] == "assign" and render(s_[1][1]) == state and render(s_[1][2]).startswith("Some(")]
